@@ -826,11 +826,16 @@ def compiled_part(ctx, st, info, pvt, bv, bv_flags, bv_strict, rp):
     for ci, ch in enumerate(chunks):
         specs.append({"name": "c18p%d" % ci, "source": pct_module_source(ch)})
     specs.append({"name": "c18misc", "source": MISC_SOURCE})
+    rep_plan = {t[0]: rep_bodies(rng, t[0], t[3], ctx.n(12, 60)) for t in REP_TYPES}
+    rkeys = [t[0] for t in REP_TYPES]
+    for ri in range(0, len(rkeys), 4):
+        specs.append({"name": "c18rep%d" % (ri // 4), "source": rep_module_source({k: rep_plan[k] for k in rkeys[ri:ri + 4]})})
+    ctx._c18_rep_plan = rep_plan
     opts = ["-O0"] if ctx.quick else ["-O0", "-O2"]
     for opt in opts:
         if opt != "-O0":
             # optimised C: the utility code itself (raw modules) and a cross-section of the generated code
-            keep = {"c18raw%d" % gi for gi in range(len(groups))} | {"c18f_" + k for k in ("uchar", "int", "long", "i128")} | {"c18p0", "c18misc"}
+            keep = {"c18raw%d" % gi for gi in range(len(groups))} | {"c18f_" + k for k in ("uchar", "int", "long", "i128")} | {"c18p0", "c18misc", "c18rep0"}
             specs = [s for s in specs if s["name"] in keep]
         built = cybuild.build_many(ctx, [dict(s, opt=opt) for s in specs])
         sos = {}
@@ -1133,6 +1138,12 @@ def run_compiled(ctx, st, info, pvt, bv, bv_flags, bv_strict, rp, sos, groups, f
     _tick(ctx, "percent" + tag)
     misc_check(ctx, sos, henv, conv_aware, rp, tag, opt)
     _tick(ctx, "misc" + tag)
+    rkeys = [t[0] for t in REP_TYPES]
+    for ri in range(0, len(rkeys), 4):
+        so = sos.get("c18rep%d" % (ri // 4))
+        if so is not None:
+            rep_check(ctx, so, {k: ctx._c18_rep_plan[k] for k in rkeys[ri:ri + 4]}, henv, info, sv, rp, tag, opt)
+    _tick(ctx, "repeated" + tag)
 
 
 def join_check(ctx, info, jcases, jout, sv, svb, kind_fixed, tag, opt):
@@ -1281,3 +1292,194 @@ def misc_check(ctx, sos, henv, conv_aware, rp, tag, opt):
             key_ = "cfield-conversion-char-ignored" if (fn == "d_rspec" and not conv_aware and io.startswith("ok str:")) else "misc-%s" % fn
             ctx.violation(key_, "%s%s%s gives %s, CPython %s" % (fn, cap(args, 60), tag, cap(io, 60), cap(orc, 60)),
                           {"kind": "misc", "fn": fn, "args": args, "opt": opt})
+
+
+# ---------------------------------------------------------------------------------------------------------------
+# repeated placeholders: the same local name 2-4 times in one f-string (FinalOptimizePhase.visit_JoinedStrNode
+# replaces a placeholder whose key (name, c_format_spec, format_spec, conversion or 's') was seen by a CloneNode)
+
+# key, declaration prefix of the argument, value sources (texts that tell str/repr/ascii apart), spec usable without conversion
+REP_TYPES = [
+    ("obj", "", ["'h\\u20acllo\\'q\"'", "IntSub(9)", "StrSub('z\\xe9')", "-42", "1.5", "['\\xe9', \"q'\"]"], ">9"),
+    ("str", "str ", ["'h\\u20acllo\\'q\"'", "'ab'", "'\\xe9'"], ">9"),
+    ("uni", "unicode ", ["'\\xe9\"'"], "<7"),
+    ("bytes", "bytes ", ["b\"a'\\xe9\"", "b'q'"], None),
+    ("cint", "int ", ["-42", "65"], "5"),
+    ("clong", "long ", ["-4200000000", "7"], "05"),
+    ("dbl", "double ", ["1.5", "1e16", "-0.0"], ".2f"),
+    ("list", "list ", ["['\\xe9', \"q'\"]", "[]"], None),
+    ("dict", "dict ", ["{'k\\xe9': '\\u20ac'}"], None),
+    ("tuple", "tuple ", ["('\\xe9', 1)"], None),
+]
+REP_CONVS = ["", "!r", "!s", "!a", "="]
+REP_PCT = ["%r is %s!", "%s|%r|%a", "%s%s%r", "%a~%s~%s", "<%s %s %r %r>", "%r%r %s"]
+REP_PCT_INT = ["%d and %s and %r", "%s%d%s", "%x|%s|%r"]
+
+
+def _ph(conv, spec):
+    if conv == "=":
+        return "{s=%s}" % (":" + spec if spec else "")
+    return "{s%s%s}" % (conv, ":" + spec if spec else "")
+
+
+def rep_bodies(rng, tkey, plain_spec, n_extra):
+    """[(body source of an f-string, pieces)] for one variable type; pieces: ("L", text) | ("F", conv) when spec-free"""
+    out = []
+    seps = [" is ", "|", "", "\xe9~"]
+
+    def make(convs, specs, sep, lead, tail):
+        parts, pieces = [], []
+        if lead:
+            parts.append(lead)
+            pieces.append(("L", lead))
+        for i, (c, sp) in enumerate(zip(convs, specs)):
+            if i:
+                parts.append(sep)
+                if sep:
+                    pieces.append(("L", sep))
+            parts.append(_ph(c, sp))
+            if c == "=":
+                pieces.append(("L", "s="))
+            pieces.append(("F", "r" if c == "=" else c[1:], sp))
+        if tail:
+            parts.append(tail)
+            pieces.append(("L", tail))
+        return 'f"' + "".join(parts).replace("\xe9", "\\xe9") + '"', pieces
+    # every ordered pair of conversions, no spec (the merged case), two layouts
+    for a in REP_CONVS:
+        for b in REP_CONVS:
+            out.append(make([a, b], ["", ""], " is ", "", "!"))
+            out.append(make([a, b], ["", ""], "", "<", ""))
+    # spec: same / different; a spec without conversion only where the type takes it
+    str_specs = [">9", "<8", "^7", ".3"]
+    for a in REP_CONVS:
+        for b in REP_CONVS:
+            if rng.random() < 0.5:
+                continue
+            sa = rng.choice(str_specs) if a in ("!r", "!s", "!a", "=") else (plain_spec or "")
+            for sb in ({sa, rng.choice(str_specs)} if b in ("!r", "!s", "!a", "=") else {plain_spec or ""}):
+                out.append(make([a, b], [sa, sb], "|", "", "."))
+    # 3 and 4 occurrences
+    for _ in range(n_extra):
+        n = rng.choice((3, 3, 4))
+        convs = [rng.choice(REP_CONVS) for _ in range(n)]
+        specs = ["" if rng.random() < 0.75 else (rng.choice(str_specs) if c else (plain_spec or "")) for c in convs]
+        out.append(make(convs, specs, rng.choice(seps), rng.choice(("", "[")), rng.choice(("", "]", "!"))))
+    return out
+
+
+def rep_module_source(plan):
+    """plan: {tkey: [(body, pieces)]} -> module with functions returning lists of 20 f-strings each"""
+    src = HELPERS + "\n"
+    by = {t[0]: t for t in REP_TYPES}
+    for tkey, bodies in plan.items():
+        decl = by[tkey][1]
+        for fi in range(0, len(bodies), 20):
+            src += "def rep_%s_%d(%ss): return [%s]\n" % (tkey, fi // 20, decl, ", ".join(b for b, _ in bodies[fi:fi + 20]))
+        pcts = REP_PCT + (REP_PCT_INT if tkey in ("cint", "clong", "obj") else [])
+        for pi, t in enumerate(pcts):
+            n = len(pct_directives(t))
+            src += "def reppct_%s_%d(%ss): return %r %% (%s)\n" % (tkey, pi, decl, t, "s, " * n)
+    return src + MANY_SRC
+
+
+def rep_check(ctx, so, plan, henv, info, sv, rp, tag, opt):
+    by = {t[0]: t for t in REP_TYPES}
+    cases, meta = [], []
+    for tkey, bodies in plan.items():
+        for vsrc in by[tkey][2]:
+            for fi in range(0, len(bodies), 20):
+                cases.append(("rep_%s_%d" % (tkey, fi // 20), "(%s,)" % vsrc))
+                meta.append(("f", tkey, vsrc, fi))
+            pcts = REP_PCT + (REP_PCT_INT if tkey in ("cint", "clong", "obj") else [])
+            for pi, t in enumerate(pcts):
+                cases.append(("reppct_%s_%d" % (tkey, pi), "(%s,)" % vsrc))
+                meta.append(("p", tkey, vsrc, t))
+    if rp and rp.get("kind") == "rep":
+        keep = [i for i, m in enumerate(meta) if m[1] == rp["type"] and m[2] == rp["value"]]
+        cases, meta = [cases[i] for i in keep], [meta[i] for i in keep]
+    elif rp:
+        cases, meta = cases[:4], meta[:4]
+    outs = run_many(ctx, so, cases)
+    # the switch: does the key of the de-duplication contain the conversion character?  witness f"{s!r} is {s}!" on str 'ab'
+    key_conv = getattr(ctx, "_c18_keyconv" + tag, True)
+    if "str" in plan:
+        idx = next((i for i, (b, _) in enumerate(plan["str"][:20]) if b == 'f"{s!r} is {s}!"'), None)
+        wso = run_many(ctx, so, [("rep_str_0", "('ab',)")])[0]
+        if idx is not None and wso is not None and wso.startswith("ok list:"):
+            try:
+                key_conv = ast.literal_eval(wso[8:])[idx] != "'ab' is 'ab'!"
+            except (ValueError, SyntaxError, IndexError):
+                pass
+    if "str" in plan:
+        setattr(ctx, "_c18_keyconv" + tag, key_conv)
+        ctx.notes["switches" + tag] = dict(ctx.notes.get("switches" + tag, {}), **{"dedup.keyHasConversion": key_conv})
+    lines, where = [], []
+    results = []
+    for (kind, tkey, vsrc, x), io in zip(meta, outs):
+        if io is None:
+            continue
+        v = eval(vsrc, dict(henv))
+        if kind == "p":
+            n = len(pct_directives(x))
+            orc = outcome(lambda: x % ((v,) * n))
+            ctx.count("repeated/percent/%s%s" % (tkey, tag))
+            ctx.seen(("rep%", tkey, vsrc, x, opt))
+            if io != orc:
+                key_ = classify_pct(x, [v] * n, True, True)
+                ctx.violation(key_ or "repeated-placeholder-percent", "%r %% (s,)*%d with %s s = %s%s gives %s, CPython %s"
+                              % (x, n, by[tkey][1].strip() or "object", cap(vsrc, 30), tag, cap(io, 70), cap(orc, 70)),
+                              {"kind": "rep", "type": tkey, "value": vsrc, "template": x, "opt": opt})
+            continue
+        bodies = plan[tkey][x:x + 20]
+        exp_items = [outcome(lambda b=b: eval(b, {"s": v})) for b, _ in bodies]
+        # the list is built left to right: the first item that raises decides the outcome
+        exp = "ok list:" + repr([ast.literal_eval(e[7:]) for e in exp_items]) if all(e.startswith("ok str:") for e in exp_items) \
+            else next(e for e in exp_items if not e.startswith("ok str:"))
+        ctx.count("repeated/fstring/%s%s" % (tkey, tag), len(bodies))
+        for b, _ in bodies:
+            ctx.seen(("rep", tkey, vsrc, b, opt))
+        results.append((tkey, vsrc, x, io, exp, exp_items, v))
+        # model leg (Lean `evalPiecesD`): spec-free bodies on modelled argument classes
+        if tkey in ("cint", "clong"):
+            tok = "c:%d:1:%d" % (info["int" if tkey == "cint" else "long"][0], v)
+        elif tkey in ("str", "uni", "obj") and type(v) in (str, int):
+            tok = obj_token(v)
+        else:
+            tok = None
+        if tok is not None:
+            for bi, (b, pieces) in enumerate(bodies):
+                if all(p[0] == "L" or not p[2] for p in pieces):
+                    # (an untyped object is never merged: its key does not matter)
+                    lines.append("C18 rep %d %s %s %s" % (key_conv or tkey == "obj", sv, tok, " ".join(
+                        ("L:" + enc(p[1])) if p[0] == "L" else ("F:" + (p[1] or "-")) for p in pieces)))
+                    where.append((len(results) - 1, bi))
+    mout = dict(zip(where, ctx.drv.batch(lines))) if lines else {}
+    for ri, (tkey, vsrc, x, io, exp, exp_items, v) in enumerate(results):
+        bodies = plan[tkey][x:x + 20]
+        if io == exp:
+            if not io.startswith("ok list:"):
+                continue
+            # the compiled list equals CPython's: check the model on the individual items
+            for bi, (b, _) in enumerate(bodies):
+                mo = mout.get((ri, bi))
+                if mo is not None and mo != "unmodelled" and canon_model(mo) != exp_items[bi]:
+                    ctx.tie_break("D-c repeated placeholders %s vs CyVerif.C18.evalPiecesD" % cap(b, 40),
+                                  "%s s=%s%s: model %s impl %s" % (tkey, cap(vsrc, 30), tag, cap(canon_model(mo), 60), cap(exp_items[bi], 60)),
+                                  {"kind": "rep", "type": tkey, "value": vsrc, "opt": opt})
+            continue
+        # find the first differing item (the child returns canon() of a list: items joined by ';')
+        bad = None
+        if io.startswith("ok list:") and exp.startswith("ok list:"):
+            try:
+                got = ast.literal_eval(io[8:])
+                bad = next((bi for bi, e in enumerate(exp_items) if bi >= len(got) or "ok str:" + repr(got[bi]) != e), None)
+            except (ValueError, SyntaxError):
+                bad = None
+        b = bodies[bad][0] if bad is not None else "<one of %d f-strings>" % len(bodies)
+        mo = mout.get((ri, bad)) if bad is not None else None
+        explained = mo is not None and not key_conv and canon_model(mo) != exp_items[bad]
+        ctx.violation("repeated-placeholder-dedup-key-without-conversion" if explained else "repeated-placeholder",
+                      "%s with %s s = %s%s: compiled list %s, CPython item %s" % (cap(b, 60), by[tkey][1].strip() or "object",
+                      cap(vsrc, 30), tag, cap(io, 90), cap(exp_items[bad] if bad is not None else exp, 70)),
+                      {"kind": "rep", "type": tkey, "value": vsrc, "fstring": b, "opt": opt})
